@@ -167,7 +167,7 @@ reg(PropertySpec(
 
 reg(PropertySpec(
     "C19", "Temporary overrides are fully restored on every exit path",
-    functions=["utils:PoolHandler.__exit__", "aspire:Aspire.auto_checkpoint"],
+    functions=["utils:PoolHandler.__exit__", "aspire:Aspire.auto_checkpoint", "aspire:Aspire.enable_pool"],
     native=_lazy("checks.native_misc", "native_C19"),
     technique="contract-based deductive verification: symbolic execution of the real PoolHandler.__enter__ + __exit__ and of the real generator body of Aspire.auto_checkpoint (split at the yield; body outcome normal / exception / mutating the current defaults) with heap identity: post-state of the guarded attributes is the pre-state (object identity and contents); single-level contract + stack discipline gives every nesting depth; bounded native nesting enumeration",
     assumptions=["@contextmanager runs the code after `yield` on normal exit and re-raises the body's exception at the yield point (assumed contract of contextlib)",
@@ -244,7 +244,7 @@ _EXTRA = {
     "C08": ["aspire:Aspire.sample_posterior"],
     "C10": ["samplers.mcmc:Emcee.sample", "samplers.mcmc:MiniPCN.sample", "samples:BaseSamples.from_dict", "utils:PoolHandler.__exit__"],
     "C11": ["samples:BaseSamples.from_samples", "aspire:Aspire.resume_from_file", "aspire:Aspire._build_aspire_from_file"],
-    "C12": ["samplers.smc.base:SMCSampler.build_checkpoint_state", "aspire:Aspire.resume_from_file", "aspire:Aspire._build_aspire_from_file"],
+    "C12": ["samplers.smc.base:SMCSampler.restore_from_checkpoint", "samplers.smc.base:SMCSampler.build_checkpoint_state", "aspire:Aspire.resume_from_file", "aspire:Aspire._build_aspire_from_file"],
     "C14": ["aspire:Aspire.resume_from_file", "aspire:Aspire._build_aspire_from_file", "samplers.smc.base:SMCSampler.sample", "aspire:Aspire.config_dict", "aspire:Aspire.save_config"],
     "C13": ["samples:BaseSamples.__setstate__", "transforms:CompositeTransform.__init__", "samples:Samples.to_numpy", "samples:SMCSamples.to_numpy", "aspire:Aspire.config_dict", "aspire:Aspire.save_config", "aspire:Aspire._build_aspire_from_file"],
     "C15": ["aspire:Aspire._build_aspire_from_file", "flows.jax.flows:FlowJax.save", "flows.torch.flows:BaseTorchFlow.save", "samples:BaseSamples.from_dict", "samples:Samples.rejection_sample",
